@@ -12,7 +12,7 @@ CATALOG = {
                  "prove liveness as a whole.",
         "note": "Partial: necessary conditions only. Trusted: the extractor and points-to engine; stdlib facts (Queue.put starts the feeder, "
                 "Thread.start runs run, Executor.map calls submit). Not decided: fairness/OS behaviour, worker death inside the shutdown phase, "
-                "user callbacks re-entering the API on the manager thread. Known findings D3, D4 are listed in known_findings.json.",
+                "user callbacks re-entering the API on the manager thread. Known finding D4 is listed in known_findings.json (D1-D3, D5, D7-D9 were repaired in /repo with fix: commits).",
     },
     "C02": {
         "ref": "DESIGN.md section 4 C02",
@@ -35,7 +35,7 @@ CATALOG = {
                  "empty pending; the drain releases every exit lock under the management lock, posts exactly as many non-blocking sentinels as "
                  "released workers, then closes call queue -> joins feeder -> closes result queue -> closes wake-up under its lock -> joins every "
                  "worker; the manager holds no strong reference to the executor; the at-exit hook wakes all then joins all registered managers.",
-        "note": "Partial: structural clauses. Known findings D3/D4 (respawn after shutdown(wait=False) / after executor GC) are listed in "
+        "note": "Partial: structural clauses. Known finding D4 (no respawn after the executor object was collected) is listed in "
                 "known_findings.json. Not decided: a worker crashing inside the shutdown phase; effectiveness of join_thread().",
     },
     "C07": {
@@ -46,7 +46,7 @@ CATALOG = {
                  "that a failed probe resumes waiting, that no exit happens with a task in hand, that every clean exit announces the pid before "
                  "waiting on the exit lock; on the manager side remove-under-lock -> release -> join without any broken/kill effect; the respawn "
                  "guard is true on every row with pending>0 and no worker; spawn under the management lock.",
-        "note": "Partial. Known findings D3/D4 apply (respawn needs the live executor object and its un-nulled fields). Not decided: race outcomes as values.",
+        "note": "Partial. Known finding D4 applies (the respawn needs the live executor object). Not decided: race outcomes as values.",
     },
     "C08": {
         "ref": "DESIGN.md section 4 C08",
@@ -201,9 +201,17 @@ CATALOG = {
         "level": "Decides that every parent-side resource has its release on every normal path of the lifecycle code: both ends of every pipe closed "
                  "or owned, queues and wake-up pipe closed by the join of the internals which every manager exit reaches, every worker removed from "
                  "the table reaped, references dropped by shutdown().",
-        "note": "Partial: accumulation as measured counts over repeated lifecycles is not decided; with known findings D3/D4 the releasing paths exist "
+        "note": "Partial: accumulation as measured counts over repeated lifecycles is not decided; with the known finding D4 the releasing paths exist "
                 "but are not reached (reported under C01/C05).",
     },
 }
 
 NOT_APPLICABLE = {}
+
+
+# scenario obligations (rules/scenario.py and the polarity clauses added to the other rule modules)
+_SCN = (" Branch polarity is decided by scenario obligations: the CFG is pruned under fixed truth values of a few role-resolved atoms and "
+        "must-reach / never-reach is checked on the pruned graph.")
+for _k in ("C01", "C02", "C03", "C04", "C05", "C06", "C07", "C09", "C10", "C12", "C14", "C15", "C16", "C17", "C20"):
+    if "scenario obligations" not in CATALOG[_k]["technique"]:
+        CATALOG[_k]["technique"] += _SCN
